@@ -168,6 +168,12 @@ def issue (stable s : St) (sender recv hash code metaLen : Nat) (amt : Option In
       pure (setMeta s2 recv hash (decide (metaLen > 0)))
   else .error .category
 
+/-- the receiver's entry ReplenishAssetTx starts from: the stored one, or a fresh (code, id, 0) -/
+def oldEntry (s : St) (recv id code : Nat) : Nat × Int :=
+  match s.equity recv id with
+  | none => (code, 0)
+  | some e => e
+
 def replenish (stable s : St) (sender recv code id : Nat) (amt : Option Int) : Except Err St :=
   match amt with
   | none => .error .parse
@@ -180,12 +186,8 @@ def replenish (stable s : St) (sender recv code id : Nat) (amt : Option Int) : E
   if r.frozen then .error .frozen else
   if r.replenishable = false then .error .notReplenishable else
   if r.divisible = false then .error .notDivisible else
-  let old : Nat × Int := match s.equity recv id with
-    | none => (code, 0)
-    | some e => e
-  if code ≠ old.1 then .error .codeMismatch else
-  do
-    let s1 ← putEquity s recv id (old.1, old.2 + amt)
+  if code ≠ (oldEntry s recv id code).1 then .error .codeMismatch else
+  (putEquity s recv id ((oldEntry s recv id code).1, (oldEntry s recv id code).2 + amt)) >>= fun s1 =>
     putSupply s1 code (r.supply + amt)
 
 def modify (stable s : St) (sender code : Nat) (fz : Fz) : Except Err St :=
@@ -198,19 +200,27 @@ def modify (stable s : St) (sender code : Nat) (fz : Fz) : Except Err St :=
     | .set b => .ok { s with assets := fun x => if x = code then some { r with frozen := b } else s.assets x }
     | _ => .ok s
 
-/-- the state changes of EVM.TransferAssetTx once all checks passed (`amount` already replaced by the
-    whole equity for a non-divisible asset) -/
-def moveEquity (s : St) (sender recv id c : Nat) (r : AssetRec) (amount : Int) : Except Err St := do
-  let s1 ←
-    if recv ≠ 0 then
-      match s.equity recv id with
-      | none => putEquity s recv id (c, amount)
-      | some (c2, e2) => putEquity s recv id (c2, e2 + amount)
-    else
-      putSupply s c (if r.divisible then r.supply - amount else r.supply - 1)
+/-- what the receiver's entry becomes: a fresh copy of the sender's entry with the amount, or its own entry plus the amount -/
+def creditEntry (s : St) (recv id c : Nat) (amount : Int) : Nat × Int :=
+  match s.equity recv id with
+  | none => (c, amount)
+  | some (c2, e2) => (c2, e2 + amount)
+
+/-- credit the receiver, or (receiver = burn address 0x0) reduce the recorded supply -/
+def credit (s : St) (recv id c : Nat) (r : AssetRec) (amount : Int) : Except Err St :=
+  if recv ≠ 0 then putEquity s recv id (creditEntry s recv id c amount)
+  else putSupply s c (if r.divisible then r.supply - amount else r.supply - 1)
+
+/-- debit the sender: its entry is READ AGAIN (it may be the receiver) -/
+def debit (s1 : St) (sender id : Nat) (amount : Int) : Except Err St :=
   match s1.equity sender id with
   | none => .error .equityNotExist
   | some (c', e') => putEquity s1 sender id (c', e' - amount)
+
+/-- the state changes of EVM.TransferAssetTx once all checks passed (`amount` already replaced by the
+    whole equity for a non-divisible asset) -/
+def moveEquity (s : St) (sender recv id c : Nat) (r : AssetRec) (amount : Int) : Except Err St :=
+  credit s recv id c r amount >>= fun s1 => debit s1 sender id amount
 
 def transfer (fixed : Bool) (stable s : St) (sender recv id ck : Nat) (amt : Option Int) : Except Err St :=
   match amt with
